@@ -142,6 +142,10 @@ BinaryCalls(r) ==
            \cup {[f |-> "joinl", lhs |-> n] : n \in {"T2", "T3pa", "T3ss", "T2dd"}}
            \* Join(True).partial(operand, is_lhs=True).apply(r): r is the target, the operand the fixed LEFT side
            \cup {[f |-> "pjoinl", lhs |-> n] : n \in {"T2", "T3pa", "T2dd"}}
+           \* Join(max_columns={a}).apply(r, operand): shared key columns outside max_columns are NOT matched
+           \* (the output takes them from the rhs); with min_columns={b} as well: refused unless b is common
+           \cup {[f |-> "joinmx", rhs |-> n, mx |-> {"a"}, mn |-> {}] : n \in {"T3", "T3dd"}}
+           \cup {[f |-> "joinmx", rhs |-> "T2", mx |-> {"a", "b"}, mn |-> {"a"}]}
            \cup {[f |-> "chain", rhs |-> n] : n \in AllOperands}
            \cup {[f |-> "chainl", lhs |-> n] : n \in {"T3", "T3ss", "T3pa"}}
 
@@ -152,6 +156,8 @@ CallResult(c, r) ==
       [] c.f = "joinl" -> Bind(OperandTree(c.lhs), LAMBDA o : JoinRel(o, r, PLit(TRUE), TRUE, FALSE))
       [] c.f = "pjoinl" -> Bind(OperandTree(c.lhs), LAMBDA o : JoinRelL(o, r, PLit(TRUE), TRUE, FALSE))
       [] c.f = "joinself" -> JoinRel(r, r, PLit(TRUE), TRUE, FALSE)
+      [] c.f = "joinmx" -> Bind(OperandTree(c.rhs), LAMBDA o :
+                              ApplyBinary([o |-> "join", p |-> PLit(TRUE), common |-> {}, res |-> FALSE, mx |-> c.mx, mn |-> c.mn], r, o))
       [] c.f = "chain" -> Bind(OperandTree(c.rhs), LAMBDA o : ApplyBinary(ChainOp, r, o))
       [] c.f = "chainl" -> Bind(OperandTree(c.lhs), LAMBDA o : ApplyBinary(ChainOp, o, r))
       [] c.f = "xfer"  -> TransferTo(r, c.dest)
@@ -163,6 +169,7 @@ CallRows(c, r, rows) ==
       [] c.f = "join"  -> JoinRows(rows, OperandRows(c.rhs), CommonCols(Cols(r), Cols(OperandTree(c.rhs))), c.p)
       [] c.f \in {"joinl", "pjoinl"} -> JoinRows(OperandRows(c.lhs), rows, CommonCols(Cols(r), Cols(OperandTree(c.lhs))), PLit(TRUE))
       [] c.f = "joinself" -> JoinRows(rows, rows, CommonCols(Cols(r), Cols(r)), PLit(TRUE))
+      [] c.f = "joinmx" -> JoinRows(rows, OperandRows(c.rhs), CommonCols(Cols(r), Cols(OperandTree(c.rhs))) \cap c.mx, PLit(TRUE))
       [] c.f = "chain" -> rows \o OperandRows(c.rhs)
       [] c.f = "chainl" -> OperandRows(c.lhs) \o rows
       [] c.f = "xfer"  -> rows
@@ -173,13 +180,21 @@ Calls(r, h) == {UnCall(op) : op \in UnaryMenu(Cols(r), h)} \cup BinaryCalls(r)
 \* StartChain: programs start from T1 UNION ALL T3 (a compound select), so that
 \* the bounded depth is spent on operations over a chain
 StartCall == [f |-> "chain", rhs |-> "T3"]
+\* StartJoin (a definition a configuration may override with TRUE): programs start from
+\* dedup(T1) JOIN[max_columns={a}] dedup(T3) - two deduplicated sub-queries that share the key
+\* column b outside the equality constraint
+StartJoin == FALSE
+StartHist == IF StartJoin THEN <<UnCall(Dedup), [f |-> "joinmx", rhs |-> "T3dd", mx |-> {"a"}, mn |-> {}]>>
+             ELSE IF StartChain THEN <<StartCall>> ELSE <<>>
+RECURSIVE RunStart(_, _, _)
+RunStart(h, r, rows) == IF h = <<>> THEN [t |-> r, rows |-> rows]
+                        ELSE RunStart(Tail(h), CallResult(Head(h), r), CallRows(Head(h), r, rows))
 Init == /\ t1 \in Contents
         /\ bnd \in BoundModes
-        /\ hist = (IF StartChain THEN <<StartCall>> ELSE <<>>)
-        /\ rel = (IF StartChain THEN CallResult(StartCall, PlainSel(LeafT1(t1, bnd))) ELSE PlainSel(LeafT1(t1, bnd)))
-        /\ ref = (IF StartChain THEN t1 \o T3Rows ELSE t1)
+        /\ hist = StartHist
+        /\ LET run == RunStart(StartHist, PlainSel(LeafT1(t1, bnd)), t1) IN rel = run.t /\ ref = run.rows
 
-Step == /\ Len(hist) < MaxDepth + (IF StartChain THEN 1 ELSE 0)
+Step == /\ Len(hist) < MaxDepth + Len(StartHist)
         /\ \E c \in Calls(rel, hist) :
               LET r == CallResult(c, rel) IN
               /\ ~IsErr(r)
@@ -242,6 +257,7 @@ RawStep(c, t) ==
       [] c.f = "join"  -> Bin(JoinOp(c.p, CommonCols(Cols(t), Cols(OperandTree(c.rhs)))), t, OperandTree(c.rhs))
       [] c.f \in {"joinl", "pjoinl"} -> Bin(JoinOp(PLit(TRUE), CommonCols(Cols(t), Cols(OperandTree(c.lhs)))), OperandTree(c.lhs), t)
       [] c.f = "joinself" -> Bin(JoinOp(PLit(TRUE), CommonCols(Cols(t), Cols(t))), t, t)
+      [] c.f = "joinmx" -> Bin(JoinOp(PLit(TRUE), CommonCols(Cols(t), Cols(OperandTree(c.rhs))) \cap c.mx), t, OperandTree(c.rhs))
       [] c.f = "chain" -> Bin(ChainOp, t, OperandTree(c.rhs))
       [] c.f = "chainl" -> Bin(ChainOp, OperandTree(c.lhs), t)
       [] c.f = "xfer"  -> t
@@ -262,6 +278,8 @@ RawConformKeeps ==
 (* ---------------- requests that must be refused ---------------- *)
 OnlyIterNeg == [x |-> "fn", f |-> "neg", args |-> <<A>>, only |-> "iter"]
 OnlyIterCmp == [p |-> "cmp", f |-> "lt", l |-> A, r |-> Lit(1), only |-> "iter"]
+\* a boolean function DECLARED for this engine whose argument is not supported by it
+SqlCmpIterArg == [p |-> "cmp", f |-> "lt", l |-> OnlyIterNeg, r |-> Lit(1), only |-> "sql"]
 IllCalls ==
     {UnCall(Calc("k", Ref("z"))), UnCall(Calc("a", Fn("neg", <<B>>))), UnCall(Calc("k", Lit(1))),
      UnCall(Proj({"a", "z"})), UnCall(SelRaw(Cmp("eq", Ref("z"), Lit(0)))),
@@ -273,6 +291,8 @@ IllCalls ==
      UnCall(SelRaw(Or(<<Cmp("eq", A, Lit(0)), OnlyIterCmp>>))),
      UnCall(SelRaw(Not(Or(<<OnlyIterCmp, Cmp("eq", A, Lit(1))>>)))),
      UnCall(SelRaw(In(A, SeqC(<<Lit(1), OnlyIterNeg>>)))),
+     UnCall(SelRaw(SqlCmpIterArg)), UnCall(SelRaw(And(<<Cmp("eq", A, Lit(0)), Not(SqlCmpIterArg)>>))),
+     [f |-> "join", rhs |-> "T2", p |-> SqlCmpIterArg],
      [f |-> "join", rhs |-> "T2", p |-> Or(<<Cmp("eq", A, Lit(0)), OnlyIterCmp>>)]}
 
 \* refused requests = ill-formed ones + regular ones the model refuses (column
